@@ -131,8 +131,8 @@ Print Assumptions C18_ws_notification_dispatch.
        s owns no id, no notification is delivered to s afterwards in the whole history ([no_late]), and
        nothing is ever sent on / closed twice as a closed notifications channel.  PARTIAL: proved for
        event sequences in which no reconnect begins while the receive loop is inside a frame
-       (ghost flag w_straddle: between popInflight and addActiveSub / at the hand-over of a
-       notification) nor while a Subscribe() call is between addConfiguredSub and the completion of its
+       (ghost flag w_straddle: between popInflight and the completion of the frame's handling - for the
+       refutation only the hand-over of a notification matters, see 7c) nor while a Subscribe() call is between addConfiguredSub and the completion of its
        own send (w_substraddle).  Without the first hypothesis the statement is false of the faithful
        model (7c); without the second one see 6b. *)
 Theorem C18_ws_routing_partial :
@@ -146,11 +146,13 @@ Theorem C18_ws_routing_partial :
 Proof. exact ws_routing_partial. Qed.
 Print Assumptions C18_ws_routing_partial.
 
-(* 7c. the witness: the receive loop has taken the confirmation of subscription 0 (server id 7) off the
-       pending table when the connection drops; handleReconnect clears the tables and re-requests 0;
-       the receive loop then records the OLD connection's id 7 as active; the new confirmation (id 8)
-       adds a second entry; Unsubscribe removes only 8; a notification carrying 7 is then sent on the
-       closed notifications channel of the unsubscribed subscription. *)
+(* 7c. the witness: the receive loop has looked up the owner of a notification (subscription 0) and has not
+       yet entered the select that hands it over when the connection drops; handleReconnect clears
+       currentSubID and re-requests 0; Unsubscribe therefore sends no eth_unsubscribe (nothing it has to
+       wait for the receive loop for) and closes the notifications channel; the receive loop then enters
+       the select with a send on the closed channel among its ready cases.  (The other window, between
+       popInflight and addActiveSub of a confirmation, was a genuine defect of /repo and is repaired:
+       addActiveSub checks the connection generation - Example d18c_trace_is_safe.) *)
 Theorem C18_ws_routing_refuted :
   exists evs w, wrun evs winit = Some w /\ w_substraddle w = false /\ w_upc w 0 = UDone true /\
                 w_panic w = true.
